@@ -15,7 +15,13 @@ R1 tag-keyed firing idiom.  Every function that calls `_group_by_tag(inputs, inp
    (single-key dict literal or a dominating `len(ports) != 1 -> raise` guard = one port).
 R2 `StreamFlowExecutor._wait_outputs` / `run`: results are stored under the name of the task that
    delivered them, every output task is named after the port it reads, and the re-armed task reads the
-   port with the consumed task's name.
+   port with the consumed task's name.  An output task is recognised by what the stored value denotes,
+   not by its text: plain temporaries are followed by def-use, and a call of a program function that
+   returns the task (or performs the `self.output_tasks[K] = ...` store itself) is followed with an
+   inlining bound of 2 -- the helper's create_task expression is lifted into the caller's frame
+   (parameters -> argument expressions) and key / name / port are compared there; a helper whose
+   store depends on its own loop variables is checked in its own frame.  A helper that creates the
+   task in a shape that cannot be lifted (star arguments, rebound parameters) is an analysis error.
 
 Deviation from DESIGN.md (C05.R1 c): DESIGN asks that the tag is popped *before* it is processed.  The
 map is a local of the single task that runs the loop, so the position of the pop relative to the awaits
@@ -34,7 +40,7 @@ from __future__ import annotations
 import ast
 
 from ..cfg import NORMAL
-from ..model import dotted, unparse
+from ..model import dotted, enclosing_stmt, unparse
 from ..selftest import V
 from ._util_A import (
     calls_named,
@@ -54,6 +60,7 @@ from ._util_A import (
     require_members,
     resolves_to,
     same,
+    scoped_binding,
     single_origin,
     strip_await,
 )
@@ -70,7 +77,8 @@ META = {
         "(operator, both operands' origins), the removal of the fired tag (must-pass-through on the CFG), the "
         "snapshot iteration and the agreement between the port mapping read and the one counted are extracted and "
         "checked; every other multi-port _get_inputs reader must use the idiom. Executor: def-use check that results "
-        "are keyed by the delivering task's name, tasks are named after their port and re-armed on that port. "
+        "are keyed by the delivering task's name, tasks are named after their port and re-armed on that port "
+        "(the task creation is followed through temporaries and through helpers that return or store the task, inlining bound 2). "
         "Decides necessary structural conditions of schedule independence; the results themselves are not computed."
     ),
     "undecided": "equality of results itself; order dependence introduced by user-level expressions; LIFO consumption in DotProductCombinator",
@@ -342,23 +350,230 @@ def r1(ctx):
 # --------------------------------------------------------------------------- R2
 
 
-def _output_tasks(p, f):
-    """[(assign stmt, key expr, create_task call, name expr, port expr)] for
-    `self.output_tasks[K] = asyncio.create_task(<wrapped <port>.get(..)>, name=N)`."""
+_INLINE = 2  # helper calls followed from an output-task store (create_task wrapped in a private method)
+
+
+class _NoLift(Exception):
+    """A helper-side expression has no caller-side denotation (loop variable, rebound parameter, ...)."""
+
+
+def _origin_nid(f, e, nid, depth: int = 6):
+    """(expression, CFG node) `e` denotes at `nid` after following unique plain local assignments."""
+    e = strip_await(e)
+    while depth > 0 and isinstance(e, ast.Name) and nid is not None and scoped_binding(e) is None:
+        ds = rdefs(f, e.id, nid, use=e)
+        if not ds or not all(d.kind in ("assign", "walrus") and d.index is None for d in ds) or any(not same(ds[0].value, d.value) for d in ds[1:]):
+            break
+        e, nid, depth = strip_await(ds[0].value), ds[0].nid, depth - 1
+    return e, nid
+
+
+def _bind(h, call):
+    """parameter name -> argument expression of `call` (a call of `h`); None when the call cannot be
+    matched positionally (star arguments)."""
+    a = h.node.args
+    if any(isinstance(x, ast.Starred) for x in call.args) or any(k.arg is None for k in call.keywords):
+        return None
+    pos = [x.arg for x in a.posonlyargs + a.args]
+    bind: dict = {}
+    dflt = dict(zip(pos[len(pos) - len(a.defaults):], a.defaults)) if a.defaults else {}
+    dflt.update({k.arg: d for k, d in zip(a.kwonlyargs, a.kw_defaults) if d is not None})
+    static = any((dotted(d) or "").endswith("staticmethod") for d in h.decorators)
+    if h.cls is not None and not static:
+        if not pos or not isinstance(call.func, ast.Attribute):
+            return None
+        recv = call.func.value
+        if isinstance(recv, ast.Call) and isinstance(recv.func, ast.Name) and recv.func.id == "super":
+            recv = ast.Name(id="self", ctx=ast.Load())
+        bind[pos[0]] = recv
+        pos = pos[1:]
+    if len(call.args) > len(pos) and a.vararg is None:
+        return None
+    for nm, v in zip(pos, call.args):
+        bind[nm] = v
+    for k in call.keywords:
+        bind[k.arg] = k.value
+    for nm, d in dflt.items():
+        bind.setdefault(nm, d)
+    return bind
+
+
+def _lift(h, e, nid, bind, depth: int = 4):
+    """Caller-side denotation of the expression `e` of helper `h` (evaluated at h's CFG node `nid`):
+    parameters become the call's argument expressions (the caller's own AST nodes, so def-use keeps
+    working on them), unique plain temporaries are expanded, module-level names and attributes are kept."""
+    if bind is None:
+        raise _NoLift("call with star arguments")
+    inside = {id(x) for x in ast.walk(e)}
+
+    def go(x, n, d):
+        if isinstance(x, ast.Name):
+            sb = scoped_binding(x)
+            if sb is not None:
+                if id(sb[1]) in inside:
+                    return x
+                raise _NoLift(f"`{x.id}` is bound by a comprehension of {h.name}")
+            if n is None:
+                raise _NoLift(f"`{x.id}`: position in {h.name} unknown")
+            ds = rdefs(h, x.id, n, use=x)
+            kinds = {k.kind for k in ds}
+            if kinds == {"param"}:
+                if x.id in bind:
+                    return bind[x.id]
+                raise _NoLift(f"parameter `{x.id}` of {h.name} is not passed")
+            if kinds == {"unbound"}:
+                return x
+            if d > 0 and kinds and kinds <= {"assign", "walrus"} and all(k.index is None for k in ds) and all(same(ds[0].value, k.value) for k in ds[1:]):
+                for y in ast.walk(ds[0].value):
+                    inside.add(id(y))
+                return go(ds[0].value, ds[0].nid, d - 1)
+            raise _NoLift(f"`{x.id}` of {h.name} is neither a parameter nor a plain temporary")
+        new = x.__class__()
+        for fld, val in ast.iter_fields(x):
+            if isinstance(val, list):
+                setattr(new, fld, [go(i, n, d) if isinstance(i, ast.AST) else i for i in val])
+            elif isinstance(val, ast.AST):
+                setattr(new, fld, go(val, n, d))
+            else:
+                setattr(new, fld, val)
+        return new
+
+    return go(e, nid, depth)
+
+
+def _task_calls(p, f, value, nid, depth: int = _INLINE):
+    """The task creation(s) the value `value` (evaluated at f's CFG node `nid`) denotes, each as
+    (create_task call expressed in f's frame, CFG node of f where it is evaluated, helper that creates it | None); None when the value is
+    not a task creation.  Follows plain temporaries and calls of program functions that *return* the
+    task (`self._create_output_task(name, port, consumer)`): the helper's create_task expression is
+    lifted into the caller's frame (parameters -> arguments).  Raises _NoLift when a helper creates the
+    task but its expression cannot be expressed at the call site."""
+    v, vn = _origin_nid(f, value, nid)
+    if not isinstance(v, ast.Call):
+        return None
+    if resolves_to(p, f, v, "asyncio.create_task", "asyncio.ensure_future"):
+        return [(v, vn, None)]
+    if depth <= 0:
+        return None
+    hs = [p.functions[q] for q in p.resolve_call(f, v, fanout=False) if q in p.functions]
+    if len(hs) != 1:
+        return None
+    h = hs[0]
+    rets = [n for n in h.body_nodes() if isinstance(n, ast.Return)]
+    if not rets or any(r.value is None for r in rets):
+        return None
     out = []
+    bind = _bind(h, v)
+    for r in rets:
+        rn = nid_of(h, r.value)
+        sub = _task_calls(p, h, r.value, rn, depth - 1)
+        if sub is None:
+            return None
+        for c, cn, via in sub:
+            out.append((_lift(h, c, cn, bind), vn, via or h))
+    return out
+
+
+def _port_of(f, c, nid, depth: int = 4):
+    """(port expression, CFG node) of the `<port>.get(..)` coroutine the task `c` wraps: the `.get` call that is
+    the coroutine argument of a create_task is preferred; temporaries are followed."""
+    prefer, cands = [], []
+
+    def is_get(x):
+        mc = method_call(x, "get")
+        if mc is not None and not (isinstance(mc.func.value, ast.Attribute) and mc.func.value.attr == "output_tasks"):
+            return mc
+        return None
+
+    def go(x, n, d):
+        if is_get(x) is not None:
+            cands.append((x.func.value, n))
+            return  # neither the receiver nor the arguments of the read are searched
+        if isinstance(x, ast.Call) and x.args and (dotted(x.func) or "").split(".")[-1] in ("create_task", "ensure_future"):
+            a0, an = _origin_nid(f, x.args[0], n)
+            if is_get(a0) is not None:
+                prefer.append((a0.func.value, an))
+        if isinstance(x, ast.Name):
+            if d > 0 and isinstance(x.ctx, ast.Load):
+                o, on = _origin_nid(f, x, n, depth=1)
+                if o is not x:
+                    go(o, on, d - 1)
+            return
+        for y in ast.iter_child_nodes(x):
+            go(y, n, d)
+
+    go(c, nid, depth)
+    best = prefer or cands
+    return best[-1] if best else (None, nid)
+
+
+def _is_store(n, own: bool = True):
+    """`self.output_tasks[K] = V`; in a helper (own=False) `<receiver name>.output_tasks[K] = V` (the receiver is
+    lifted to the call site and must denote `self` there)."""
+    if not (isinstance(n, ast.Assign) and len(n.targets) == 1 and isinstance(n.targets[0], ast.Subscript)):
+        return False
+    t = n.targets[0].value
+    if own:
+        return dotted(t) == "self.output_tasks"
+    return isinstance(t, ast.Attribute) and t.attr == "output_tasks" and isinstance(t.value, ast.Name)
+
+
+def _output_tasks(p, f):
+    """Output-task stores reachable from `f`, as dicts
+    {frame, stmt, key, call, nid, name, port, pnid, via, opaque}:
+    `self.output_tasks[K] = <task>` in f itself, where <task> is `asyncio.create_task(<wrapped <port>.get(..)>, name=N)`
+    directly, through temporaries or through a helper that returns it; and the same store performed by a
+    helper that f calls (lifted to the call site when K/N/<port> are the helper's parameters, otherwise
+    checked in the helper's own frame).  `call` is None for a store of something that is not a task
+    creation; `opaque` carries the reason when a helper creates the task in a shape that cannot be lifted."""
+    out = []
+
+    def rec(frame, stmt, key, c, nid, via=None):
+        port, pnid = _port_of(frame, c, nid)
+        out.append(dict(frame=frame, stmt=stmt, key=key, call=c, nid=nid, name=kwarg(c, "name"), port=port, pnid=pnid, via=via, opaque=None))
+
+    def none(frame, stmt, key, opaque=None):
+        out.append(dict(frame=frame, stmt=stmt, key=key, call=None, nid=None, name=None, port=None, pnid=None, via=None, opaque=opaque))
+
     for n in f.body_nodes():
-        if not (isinstance(n, ast.Assign) and len(n.targets) == 1 and isinstance(n.targets[0], ast.Subscript) and dotted(n.targets[0].value) == "self.output_tasks"):
-            continue
-        c = strip_await(n.value)
-        if not (isinstance(c, ast.Call) and resolves_to(p, f, c, "asyncio.create_task", "asyncio.ensure_future")):
-            out.append((n, n.targets[0].slice, None, None, None))
-            continue
-        port = None
-        for x in ast.walk(c):
-            mc = method_call(x, "get")
-            if mc is not None and not (isinstance(mc.func.value, ast.Attribute) and mc.func.value.attr in ("output_tasks",)):
-                port = mc.func.value
-        out.append((n, n.targets[0].slice, c, kwarg(c, "name"), port))
+        if _is_store(n):
+            sn = nid_of(f, n)
+            try:
+                tcs = _task_calls(p, f, n.value, sn)
+            except _NoLift as e:
+                none(f, n, n.targets[0].slice, opaque=str(e))
+                continue
+            if tcs is None:
+                none(f, n, n.targets[0].slice)
+            for c, cn, via in tcs or []:
+                rec(f, n, n.targets[0].slice, c, cn, via=via)
+        elif isinstance(n, ast.Call):
+            # a helper that performs the store itself
+            hs = [p.functions[q] for q in p.resolve_call(f, n, fanout=False) if q in p.functions]
+            if len(hs) != 1 or hs[0] is f:
+                continue
+            h = hs[0]
+            stores = [s for s in h.body_nodes() if _is_store(s, own=False)]
+            if not stores:
+                continue
+            stmt = enclosing_stmt(n) or n
+            cn = nid_of(f, n)
+            bind = _bind(h, n)
+            for s in stores:
+                hn = nid_of(h, s)
+                try:
+                    tcs = _task_calls(p, h, s.value, hn, _INLINE - 1)
+                except _NoLift as e:
+                    none(h, s, s.targets[0].slice, opaque=str(e))
+                    continue
+                for c, hcn, _via in tcs or []:
+                    try:
+                        # `self.output_tasks` of the helper must be the caller's mapping
+                        if dotted(_lift(h, s.targets[0].value, hn, bind)) != "self.output_tasks":
+                            raise _NoLift("another object's output_tasks")
+                        rec(f, stmt, _lift(h, s.targets[0].slice, hn, bind), _lift(h, c, hcn, bind), cn, via=h)
+                    except _NoLift:
+                        rec(h, s, s.targets[0].slice, c, hcn, via=h)
     return out
 
 
@@ -392,52 +607,63 @@ def r2(ctx):
                instance="wait:store:key", message=f"result is stored under `{unparse(key)}`, not under the delivering task's name (= output port name)")
     # (b) every output task: key == name == port
     n_tasks = 0
-    for fn in (f, p.func(f"{EXE}.run")):
+    roots = (f, p.func(f"{EXE}.run"))
+    records, seen = [], set()
+    for root in roots:
+        for r in _output_tasks(p, root):
+            k = (r["frame"].qualname, id(r["stmt"]), unparse(r["call"]) if r["call"] is not None else "")
+            if k not in seen:
+                seen.add(k)
+                records.append(r)
+    for r in records:
+        fn, stmt, key, c, name, port = r["frame"], r["stmt"], r["key"], r["call"], r["name"], r["port"]
         who = fn.name
-        for stmt, key, c, name, port in _output_tasks(p, fn):
-            if c is None:
-                continue
-            n_tasks += 1
-            nid = nid_of(fn, stmt)
-            ok, msg = True, ""
-            if name is None:
-                ok, msg = False, "the output task has no name: _wait_outputs cannot tell which port it belongs to (its result is dropped)"
-            elif not same(single_origin(fn, name, nid) or name, single_origin(fn, key, nid) or key):
-                ok, msg = False, f"task stored under `{unparse(key)}` is named `{unparse(name)}`"
-            elif port is None:
-                ctx.require(False, f"C05.R2: {who}: no <port>.get(...) inside the output task")
-            else:
-                po = single_origin(fn, port, nid)
-                ko = single_origin(fn, key, nid) or key
-                good = False
-                # for <name>, <port> in self.workflow.get_output_ports().items()
-                if isinstance(po, ast.Name) and isinstance(ko, ast.Name):
-                    dp, dk = name_def(fn, po, nid), name_def(fn, ko, nid)
-                    if dp and dk and dp.kind == dk.kind == "for" and dp.stmt is dk.stmt and (dk.index, dp.index) == (0, 1):
-                        it = dp.value
-                        good = isinstance(it, ast.Call) and isinstance(it.func, ast.Attribute) and it.func.attr == "items" and \
-                            isinstance(it.func.value, ast.Call) and isinstance(it.func.value.func, ast.Attribute) and it.func.value.func.attr == "get_output_ports"
-                        if not good:
-                            msg = f"`{unparse(it)}` does not enumerate the workflow's output ports by name"
-                    else:
-                        msg = f"port `{unparse(po)}` and task name `{unparse(ko)}` do not come from the same (name, port) pair"
-                # self.workflow.get_output_port(K) / get_output_ports()[K]
-                elif isinstance(po, ast.Call) and isinstance(po.func, ast.Attribute) and po.func.attr == "get_output_port" and len(po.args) == 1:
-                    good = same(single_origin(fn, po.args[0], nid) or po.args[0], ko)
-                    msg = f"the re-armed task `{unparse(key)}` reads port `{unparse(po.args[0])}`"
-                elif isinstance(po, ast.Subscript) and "output_ports" in unparse(po.value):
-                    good = same(single_origin(fn, po.slice, nid) or po.slice, ko)
-                    msg = f"the re-armed task `{unparse(key)}` reads port `{unparse(po.slice)}`"
+        ctx.require(r["opaque"] is None, f"C05.R2: {who}: `{unparse(stmt)}` stores a task created by a helper in a shape that cannot be followed ({r['opaque']})")
+        if c is None:
+            continue
+        n_tasks += 1
+        nid = r["nid"] if r["nid"] is not None else nid_of(fn, stmt)
+        pnid = r["pnid"] if r["pnid"] is not None else nid
+        hint = f" (task created in {r['via'].name})" if r["via"] is not None else ""
+        ok, msg = True, ""
+        if name is None:
+            ok, msg = False, "the output task has no name: _wait_outputs cannot tell which port it belongs to (its result is dropped)"
+        elif not same(single_origin(fn, name, nid) or name, single_origin(fn, key, nid) or key):
+            ok, msg = False, f"task stored under `{unparse(key)}` is named `{unparse(name)}`"
+        elif port is None:
+            ctx.require(False, f"C05.R2: {who}: no <port>.get(...) inside the output task")
+        else:
+            po = single_origin(fn, port, pnid)
+            ko = single_origin(fn, key, nid) or key
+            good = False
+            # for <name>, <port> in self.workflow.get_output_ports().items()
+            if isinstance(po, ast.Name) and isinstance(ko, ast.Name):
+                dp, dk = name_def(fn, po, pnid), name_def(fn, ko, nid)
+                if dp and dk and dp.kind == dk.kind == "for" and dp.stmt is dk.stmt and (dk.index, dp.index) == (0, 1):
+                    it = dp.value
+                    good = isinstance(it, ast.Call) and isinstance(it.func, ast.Attribute) and it.func.attr == "items" and \
+                        isinstance(it.func.value, ast.Call) and isinstance(it.func.value.func, ast.Attribute) and it.func.value.func.attr == "get_output_ports"
+                    if not good:
+                        msg = f"`{unparse(it)}` does not enumerate the workflow's output ports by name"
                 else:
-                    ctx.require(False, f"C05.R2: {who}: port expression `{unparse(po) if po is not None else unparse(port)}` not understood")
-                ok = good
-            ctx.ob("R2", f"{who}: an output task is stored under, named after and reads the same port", ok, func=fn, node=stmt,
-                   instance=f"{who}:task:{unparse(key)}:{'rearm' if in_rearm(fn, stmt) else 'new'}", message=msg)
+                    msg = f"port `{unparse(po)}` and task name `{unparse(ko)}` do not come from the same (name, port) pair"
+            # self.workflow.get_output_port(K) / get_output_ports()[K]
+            elif isinstance(po, ast.Call) and isinstance(po.func, ast.Attribute) and po.func.attr == "get_output_port" and len(po.args) == 1:
+                good = same(single_origin(fn, po.args[0], pnid) or po.args[0], ko)
+                msg = f"the re-armed task `{unparse(key)}` reads port `{unparse(po.args[0])}`"
+            elif isinstance(po, ast.Subscript) and "output_ports" in unparse(po.value):
+                good = same(single_origin(fn, po.slice, pnid) or po.slice, ko)
+                msg = f"the re-armed task `{unparse(key)}` reads port `{unparse(po.slice)}`"
+            else:
+                ctx.require(False, f"C05.R2: {who}: port expression `{unparse(po) if po is not None else unparse(port)}` not understood{hint}")
+            ok = good
+        ctx.ob("R2", f"{who}: an output task is stored under, named after and reads the same port", ok, func=fn, node=stmt,
+               instance=f"{who}:task:{unparse(key)}:{'rearm' if in_rearm(fn, stmt) else 'new'}", message=msg + hint if msg else msg)
     ctx.require(n_tasks >= 2, f"C05.R2: only {n_tasks} output task creations found (expected run + re-arm + new ports)")
     # (c) the re-arm uses the consumed task's name
-    rearm = [x for x in _output_tasks(p, f) if x[2] is not None and in_rearm(f, x[0])]
-    ctx.ob("R2", "_wait_outputs re-arms the port whose token it consumed", bool(rearm) and all(is_task_name(x[1], nid_of(f, x[0])) for x in rearm),
-           func=f, node=(rearm[0][0] if rearm else f.node), instance="wait:rearm",
+    rearm = [r for r in records if r["call"] is not None and r["frame"] is f and in_rearm(f, r["stmt"])]
+    ctx.ob("R2", "_wait_outputs re-arms the port whose token it consumed", bool(rearm) and all(is_task_name(r["key"], nid_of(f, r["stmt"])) for r in rearm),
+           func=f, node=(rearm[0]["stmt"] if rearm else f.node), instance="wait:rearm",
            message="after a token the executor does not wait again on the port it came from: later tokens of that port are lost")
 
 
@@ -479,6 +705,11 @@ _ER = f"{STEP}.ExecuteStep.run"
 _S = f"{STEP}.ScheduleStep.run"
 _T = f"{STEP}.TransferStep.run"
 _X = f"{STEP}.Transformer.run"
+
+_NEW_TASK = "self.output_tasks[port_name] = asyncio.create_task(self._handle_exception(asyncio.create_task(port.get(output_consumer))), name=port_name)"
+_REARM_TASK = "self.output_tasks[task_name] = asyncio.create_task(self._handle_exception(asyncio.create_task(self.workflow.get_output_port(task_name).get(output_consumer))), name=task_name)"
+_HELPER = ("def _create_output_task(executor, port_name, port, output_consumer):\n"
+           "    return asyncio.create_task(executor._handle_exception(asyncio.create_task(port.get(output_consumer))), name=port_name)\n")
 
 VARIANTS = [
     V("ScheduleStep counts all ports while reading filtered ports", SFILE, _S, "len(inputs_map[tag]) == len(input_ports)", "len(inputs_map[tag]) == len(self.input_ports)", "R1", control=True),
@@ -523,4 +754,24 @@ VARIANTS = [
     V("benign: _wait_outputs temporaries and logging", EFILE, _W, "output_tokens[task_name] = get_token_value(token)",
       "value = get_token_value(token)\n            logger.debug(task_name)\n            output_tokens[task_name] = value", None),
     V("benign: _wait_outputs re-arm via get_output_ports()[name]", EFILE, _W, "self.workflow.get_output_port(task_name).get(output_consumer)", "self.workflow.get_output_ports()[task_name].get(output_consumer)", None),
+    # helper extraction (B1-1): the create_task block moved into a function that returns / stores the task
+    V("benign: new-port and run tasks created by a helper that returns the task", EFILE, EXE, _NEW_TASK, "self.output_tasks[port_name] = _create_output_task(self, port_name, port, output_consumer)", None, count=2, append=_HELPER),
+    V("benign: re-arm through the helper, port passed as argument", EFILE, _W, _REARM_TASK,
+      "self.output_tasks[task_name] = _create_output_task(self, task_name, self.workflow.get_output_port(task_name), output_consumer)", None, append=_HELPER),
+    V("benign: generic spawn helper receives the coroutine", EFILE, _W, _NEW_TASK, "self.output_tasks[port_name] = _spawn(self, port.get(output_consumer), port_name)", None,
+      append="def _spawn(executor, coro, name):\n    inner = asyncio.create_task(coro)\n    wrapped = executor._handle_exception(inner)\n    return asyncio.create_task(wrapped, name=name)\n"),
+    V("benign: helper performs the store itself", EFILE, EXE, _NEW_TASK, "_arm(self, port_name, port, output_consumer)", None, count=2,
+      append="def _arm(executor, port_name, port, consumer):\n    executor.output_tasks[port_name] = asyncio.create_task(executor._handle_exception(asyncio.create_task(port.get(consumer))), name=port_name)\n"),
+    V("benign: output task built through temporaries", EFILE, f"{EXE}.run", _NEW_TASK,
+      "coro = port.get(output_consumer)\n                inner = asyncio.create_task(coro)\n                task = asyncio.create_task(self._handle_exception(inner), name=port_name)\n                self.output_tasks[port_name] = task", None),
+    V("helper names the task after the consumer", EFILE, EXE, _NEW_TASK, "self.output_tasks[port_name] = _create_output_task(self, port_name, port, output_consumer)", "R2", count=2,
+      append=_HELPER.replace("name=port_name", "name=output_consumer")),
+    V("helper names the task after port.name, not after the key", EFILE, EXE, _NEW_TASK, "self.output_tasks[port_name] = _create_output_task(self, port_name, port, output_consumer)", "R2", count=2,
+      append=_HELPER.replace("name=port_name", "name=port.name")),
+    V("re-arm through the helper on the first output port", EFILE, _W, _REARM_TASK,
+      "self.output_tasks[task_name] = _create_output_task(self, task_name, self.workflow.get_output_port(next(iter(self.workflow.output_ports))), output_consumer)", "R2", append=_HELPER),
+    V("re-arm through the helper with swapped arguments", EFILE, _W, _REARM_TASK,
+      "self.output_tasks[task_name] = _create_output_task(self, output_consumer, self.workflow.get_output_port(task_name), task_name)", "R2", append=_HELPER),
+    V("storing helper creates the task without a name", EFILE, EXE, _NEW_TASK, "_arm(self, port_name, port, output_consumer)", "R2", count=2,
+      append="def _arm(executor, port_name, port, consumer):\n    executor.output_tasks[port_name] = asyncio.create_task(executor._handle_exception(asyncio.create_task(port.get(consumer))))\n"),
 ]
